@@ -617,3 +617,14 @@ func EnclosingLoopHeader(fn *ssa.Function, in ssa.Instruction) *ssa.BasicBlock {
 	}
 	return best
 }
+
+// ErrIndexOfCall returns the index of the error result of a call's signature, or -1.
+func ErrIndexOfCall(call ssa.CallInstruction) int {
+	rs := call.Common().Signature().Results()
+	for i := rs.Len() - 1; i >= 0; i-- {
+		if isErrorType(rs.At(i).Type()) {
+			return i
+		}
+	}
+	return -1
+}
